@@ -142,7 +142,6 @@ Require Import Proofs.Fam_mp4_new.
 Theorem c10_offsets_follow_data_new f ilst_data cb f' atoms path last rest :
   mp4_wf f = true -> mp4_atoms f = Ok atoms -> mp4_path atoms ILST_PATH = None ->
   insert_path atoms = Some path -> rev path = last :: rest ->
-  (forall T, In T (all_tabs atoms) -> ma_off T <> ma_off last + ma_hdr last) ->
   mp4_save f ilst_data cb = Ok f' ->
   let off := ma_off last + ma_hdr last in
   let data := new_insert cb f last ilst_data in
@@ -150,27 +149,27 @@ Theorem c10_offsets_follow_data_new f ilst_data cb f' atoms path last rest :
   let np := mp4_newpos off 0 delta in
   0 <= off <= zlen f /\ delta = zlen data /\
   (forall T, In T (mp4_stco_list atoms) ->
-     tab_entries 4 f' (np (ma_off T)) = map (mp4_shift off delta) (tab_entries 4 f (ma_off T))) /\
+     tab_entries 4 f' (np (ma_off T)) = map (mp4_shift (off - 1) delta) (tab_entries 4 f (ma_off T))) /\
   (forall T, In T (mp4_co64_list atoms) ->
-     tab_entries 8 f' (np (ma_off T)) = map (mp4_shift off delta) (tab_entries 8 f (ma_off T))) /\
+     tab_entries 8 f' (np (ma_off T)) = map (mp4_shift (off - 1) delta) (tab_entries 8 f (ma_off T))) /\
   (forall T, In T (mp4_tfhd_list atoms) -> tfhd_flag f (ma_off T) = true ->
      tfhd_flag f' (np (ma_off T)) = true /\
-     tfhd_base f' (np (ma_off T)) = mp4_shift off delta (tfhd_base f (ma_off T))) /\
+     tfhd_base f' (np (ma_off T)) = mp4_shift (off - 1) delta (tfhd_base f (ma_off T))) /\
   (forall L, In L (mp4_flat atoms) -> ma_kids L = None -> is_table_name L = false ->
      (ma_off L + ma_len L <= off \/ off <= ma_off L) ->
      agree f (ma_off L) f' (np (ma_off L)) (ma_len L)) /\
   agree data 0 f' off (zlen data) /\
   (forall A, In A path -> anc_updated f delta f' A).
 Proof.
-  intros Hwf Ha Hnone Hip Hlast Hfirst Hs. destruct (wf_forest f atoms Hwf Ha) as (H1 & H2).
+  intros Hwf Ha Hnone Hip Hlast Hs. destruct (wf_forest f atoms Hwf Ha) as (H1 & H2).
   unfold mp4_save in Hs. rewrite Ha, Hnone in Hs.
   destruct (save_new_unfold f atoms ilst_data cb f' Hs) as (path' & last' & rest' & Hip' & Hlast' & Hfit & f2 & R1 & R2).
   rewrite Hip in Hip'. inversion Hip'; subst path'. rewrite Hlast in Hlast'. inversion Hlast'; subst last' rest'.
   cbv zeta in *. set (off := ma_off last + ma_hdr last) in *. set (data := new_insert cb f last ilst_data) in *.
   assert (R1' : mp4_update_parents (zlen data - 0) (splice f off 0 data) (map ma_off path) = Ok f2) by (rewrite Z.sub_0_r; exact R1).
-  assert (R2' : mp4_update_offsets atoms (zlen data - 0) off f2 = Ok f') by (rewrite Z.sub_0_r; exact R2).
-  pose proof (new_result f atoms H1 H2 path last rest Hip Hlast Hfirst data f2 f' R1' R2') as (Z & Fr & AGD & UA & U4 & U8 & UT).
-  pose proof (last_facts f atoms H1 H2 path last rest Hip Hlast Hfirst) as (_ & _ & _ & _ & Hoff).
+  assert (R2' : mp4_update_offsets atoms (zlen data - 0) (off - 1) f2 = Ok f') by (rewrite Z.sub_0_r; exact R2).
+  pose proof (new_result f atoms H1 H2 path last rest Hip Hlast data f2 f' R1' R2') as (Z & Fr & AGD & UA & U4 & U8 & UT).
+  pose proof (last_facts f atoms H1 H2 path last rest Hip Hlast) as (_ & _ & _ & _ & Hoff).
   assert (Hd : zlen f' - zlen f = zlen data - 0) by lia.
   rewrite Hd. split; [exact Hoff|]. split; [lia|]. split; [|split; [|split; [|split; [|split]]]].
   - intros T HT. destruct (U4 T HT) as (_ & E). rewrite mv_newpos in E. exact E.
@@ -179,7 +178,7 @@ Proof.
     rewrite mv_newpos in *. split; [|exact TB].
     rewrite <- Hfl. symmetry. apply (tfhd_flag_agree _ _ _ _ _ A12). lia.
   - intros L HL KL NL Hpos. rewrite <- mv_newpos.
-    exact (new_leaf_kept f atoms H1 H2 path last rest Hip Hlast Hfirst data f2 f' R1' R2' L HL KL NL Hpos).
+    exact (new_leaf_kept f atoms H1 H2 path last rest Hip Hlast data f2 f' R1' R2' L HL KL NL Hpos).
   - exact AGD.
   - exact UA.
 Qed.
@@ -190,13 +189,12 @@ Require Import Proofs.Fam_mp4_newwf.
 Theorem c10_parents_consistent_new f ilst_data cb f' atoms path last rest it :
   mp4_wf f = true -> mp4_atoms f = Ok atoms -> mp4_path atoms ILST_PATH = None ->
   mp4_insert_path atoms = Some path -> rev path = last :: rest ->
-  (forall T, In T (all_tabs atoms) -> ma_off T <> ma_off last + ma_hdr last) ->
   ilst_wellformed ilst_data it -> mp4_height it <= 62 -> zlen ilst_data < 4611686018427387904 ->
   mp4_save f ilst_data cb = Ok f' ->
   exists atoms', mp4_atoms f' = Ok atoms' /\ mp4_forest_ok f' true atoms' 0 (zlen f') = true /\
                  mp4_forest_height atoms' <= MP4_MAXDEPTH.
 Proof.
-  intros Hwf Ha Hnone Hip Hlast Hfirst Hit Hih Hsmall Hs. destruct (wf_forest f atoms Hwf Ha) as (H1 & H2).
+  intros Hwf Ha Hnone Hip Hlast Hit Hih Hsmall Hs. destruct (wf_forest f atoms Hwf Ha) as (H1 & H2).
   pose proof (wf_height f atoms Hwf Ha) as Hh.
   unfold mp4_save in Hs. rewrite Ha, Hnone in Hs.
   destruct (save_new_unfold f atoms ilst_data cb f' Hs) as (path' & last' & rest' & Hip' & Hlast' & Hfit & f2 & R1 & R2).
@@ -205,7 +203,7 @@ Proof.
   assert (R1' : mp4_update_parents (zlen (mp4_new_insert cb f last ilst_data) - 0)
                   (splice f (ma_off last + ma_hdr last) 0 (mp4_new_insert cb f last ilst_data)) (map ma_off path) = Ok f2)
     by (rewrite Z.sub_0_r; exact R1).
-  assert (R2' : mp4_update_offsets atoms (zlen (mp4_new_insert cb f last ilst_data) - 0) (ma_off last + ma_hdr last) f2 = Ok f')
+  assert (R2' : mp4_update_offsets atoms (zlen (mp4_new_insert cb f last ilst_data) - 0) (ma_off last + ma_hdr last - 1) f2 = Ok f')
     by (rewrite Z.sub_0_r; exact R2).
   assert (Hfin : exists atoms', mp4_forest_ok f' true atoms' 0 (zlen f') = true /\
                    mp4_forest_height atoms' <= Z.max (mp4_forest_height atoms) (3 + Z.max 1 (mp4_height it))).
@@ -219,7 +217,7 @@ Proof.
         apply (proj1 (atom_ok_kids_iff _ _ _ Hu)). rewrite N2. reflexivity. }
       destruct Ku as (K & Ku).
       exact (new_wellformed_udta f atoms H1 H2 cb ilst_data it Hit Hsmall moov udta T1 T2 M1 M2 K [moov] f2 f'
-               Hip E1 N1 K1 N2 Ku eq_refl Hfirst R1' R2').
+               Hip E1 N1 K1 N2 Ku eq_refl R1' R2').
     - cbn in Hlast. inversion Hlast; subst last rest.
       destruct (child_split _ _ _ C1) as (T1 & T2 & E1 & N1 & _).
       assert (Km : exists K, ma_kids moov = Some K).
@@ -227,7 +225,7 @@ Proof.
         apply (proj1 (atom_ok_kids_iff _ _ _ Hm)). rewrite N1. reflexivity. }
       destruct Km as (K & Km).
       exact (new_wellformed_moov f atoms H1 H2 cb ilst_data it Hit Hsmall moov T1 T2 K [] f2 f'
-               Hip E1 N1 Km eq_refl Hfirst R1' R2'). }
+               Hip E1 N1 Km eq_refl R1' R2'). }
   destruct Hfin as (atoms' & W & HH). pose proof (height_pos it).
   assert (HH' : mp4_forest_height atoms' <= MP4_MAXDEPTH) by (unfold MP4_MAXDEPTH in *; lia).
   exists atoms'. split; [apply parse_complete; assumption|]. split; assumption.
